@@ -76,7 +76,7 @@ type OpaqueV struct{ what string }
 type mapIter struct {
 	keys []Value
 	vals []Value
-	pos  int
+	pos  *Cell // holds the position as a plain int so that speculation can undo iterator advances
 }
 
 type strIter struct{}
@@ -469,6 +469,11 @@ func (in *Interp) mergeValue(c *Term, a, b Value) (Value, bool) {
 	case OpaqueV:
 		return a, true
 	case ClosureV:
+		return nil, false
+	case int: // iterator positions
+		if y, ok := b.(int); ok && y == x {
+			return x, true
+		}
 		return nil, false
 	}
 	return nil, false
